@@ -105,13 +105,16 @@ pub trait ISecureFramer {
   spec fn read_log(&self) -> Seq<Msg>;
   // ghost termination measure (ASSUMED for trait objects; for NullFramer the buffer length is one)
   spec fn budget(&self, buf: Seq<u8>) -> nat;
+  // ghost: "no complete frame is buffered": try_read_msg on this state/buffer returns Ok(None)
+  spec fn would_block(&self, buf: Seq<u8>) -> bool;
   fn try_read_msg(&mut self, network_buffer: &mut BytesMut) -> (r: Result<Option<Msg>, ZmqError>)
     ensures
       final(self).origin_kind() == old(self).origin_kind(),
       final(self).origin_complete() == old(self).origin_complete(),
       r matches Ok(Some(m)) ==> final(self).read_log() == old(self).read_log().push(m)
         && final(self).budget(final(network_buffer)@) < old(self).budget(old(network_buffer)@),
-      !(r matches Ok(Some(_))) ==> final(self).read_log() == old(self).read_log();
+      !(r matches Ok(Some(_))) ==> final(self).read_log() == old(self).read_log(),
+      r matches Ok(None) ==> final(self).would_block(final(network_buffer)@);
   fn write_msg_multipart(&mut self, msgs: FrameBatch) -> (r: Result<Bytes, ZmqError>)
     ensures final(self).origin_kind() == old(self).origin_kind(), final(self).origin_complete() == old(self).origin_complete(),
       final(self).read_log() == old(self).read_log();
@@ -149,6 +152,18 @@ impl ZmtpCommand {
     ensures payload(r) == PING_TAG() + to_be16(ttl as nat) + context@, r.flags == (MsgFlags { more: false, command: true }), r.data is Some
   { unimplemented!() }
 }
+
+impl ZmtpReady {
+  #[verifier::external_body]
+  pub fn create_msg(properties: HashMap<String, Vec<u8>>) -> (r: Msg)
+    ensures r.flags == (MsgFlags { more: false, command: true }), r.data is Some
+  { unimplemented!() }
+}
+// R8: `ready_cmd.properties.get("Socket-Type").map(|v| String::from_utf8_lossy(v).into_owned())` and the Identity twin
+#[verifier::external_body]
+pub fn verif_ready_socket_type(r: &ZmtpReady) -> Option<String> { unimplemented!() }
+#[verifier::external_body]
+pub fn verif_ready_identity(r: &ZmtpReady) -> Option<Blob> { unimplemented!() }
 
 // Bytes -> &[u8] deref (rewrite R6: `&ctx` where a slice is expected)
 // greeting.rs items used by the engine enter as constants/contract stand-ins in the unit file.
